@@ -46,4 +46,17 @@ func (q *ProvideQueue) Persist(ctx context.Context, d ds.Batching, batchSize int
   ghost at call(Put): $pending = $pending + 1
   ghost at call(Commit): $pending = 0
   ghost at before call(Batch): assert($pending == 0)
+
+# C19/C17 (restart): Persist stores one entry per queued prefix under the key
+# "<position>/<prefix>"; for the empty prefix the datastore key has ONE path
+# component (ds.NewKey strips the trailing slash). DrainDatastore must hand
+# every entry with one or two components to the decoder - it may only skip
+# other shapes. ($pending: the current entry is restorable and not yet decoded.)
+func (q *ProvideQueue) DrainDatastore(ctx context.Context, d ds.Batching) error
+  props C19 C17
+  ghostvar $pending bool = false
+  modifies *
+  loop 0 invariant [every-restorable-entry-is-decoded] !$pending
+  ghost at call(Split): $pending = (len($ret0) == 1 || len($ret0) == 2)
+  ghost at before call(decodeMultihashes): $pending = false
 @*/
